@@ -1087,7 +1087,8 @@ def run_history(case, rng=None, trace=None):
                 trace.append({"step": i - 1, "op": op, "before": rb[1] if rb[0] == "ok" else None,
                               "after": ra[1] if ra[0] == "ok" else None, "status": status, "bs_before": bs_before,
                               "container": cont, "container_after": type(st.td).__name__, "aux": dict(st.aux),
-                              "region": dict(st.region), "region_step": region_step, "obs": obs})
+                              "region": dict(st.region), "region_step": region_step, "obs": obs,
+                              "want_numel": int(st.want.numel()) if st.want is not None else None})
             if status == "invalid":
                 continue
             if status in ("raise", "raise!"):
@@ -1295,7 +1296,7 @@ def model_lines_for(t, case):
     k = op[0]
     ok_before = before is not None and rep_ok(before)
     plain = t["container"] == "TensorDict" and t["container_after"] == "TensorDict"
-    in_region = bool(in_region_static(t)) or 0 in t["bs_before"] or (t["obs"] and 0 in t["obs"]["shape"])
+    in_region = bool(in_region_static(t)) or 0 in t["bs_before"] or (t["obs"] and 0 in t["obs"]["shape"]) or t.get("want_numel") == 0
     if t["status"] == "ok" and after is not None and rep_ok(after) and t["obs"]:
         obs = t["obs"]
         n_el = int(np.prod(obs["shape"])) if obs["shape"] else 1
@@ -1399,6 +1400,8 @@ def check_model(R, all_traces):
                 R.mismatch(label, c, want, got)
         elif kind == "got":
             got = [val[0], val[1]] if status == "ok" else status
+            if isinstance(got, list) and got[0] == "list" and isinstance(got[1], int):
+                got = ["one", got[1]]      # rank 0: the nested list IS the payload
             if got != want:
                 R.mismatch(label, c, want, got)
         elif kind == "got-or-raise":
